@@ -427,6 +427,11 @@ func (c *wsConn) call(rid, action string, params interface{}, cb func(result jso
 	}
 
 	sub.CanCall(action, func(err error) {
+		// No call is made on behalf of a connection that has been disposed
+		// while waiting for the access response.
+		if c.disposing {
+			return
+		}
 		if err != nil {
 			cb(nil, "", err)
 			return
